@@ -174,6 +174,30 @@ Proof. exact delivered_under_key_for. Qed.
 Print Assumptions C01_delivered_under_key_for.
 
 (* ------------------------------------------------------------------------------------------ *)
+(* the remaining events (Proofs/HandlerB_Who.v): completeness of the case analysis *)
+From Discv5V Require Import Proofs.HandlerB_Who.
+
+(* An inbound WHOAREYOU can attribute only one thing: Established for the record of the contact of the
+   request in flight (to the packet's source address) whose nonce it echoes - a contact the application
+   itself addressed; the session installed is keyed with that contact's public key (C01_step_sessions,
+   initiator shape).  Established(Outgoing) is emitted before key confirmation by protocol design. *)
+Theorem C01_whoareyou_attributes_contact :
+  forall c h from n idn seq cd now d h' out o,
+  step c h (EvInbound from (PWho n idn seq cd)) now d = (h', out) -> In o out -> attributing o ->
+  exists na r e, snd (ar_remove_by_nonce (hs (tick c h now d)) n) = Some (na, r) /\ snd na = from /\
+    c_enr (rc_contact r) = Some e /\
+    o = OEvent (HEstablished e (c_addr (rc_contact r)) (negb (rc_init r))).
+Proof. exact whoareyou_attributes_contact. Qed.
+Print Assumptions C01_whoareyou_attributes_contact.
+
+(* application events and timer ticks attribute nothing: datagrams and RequestFailed only *)
+Theorem C01_local_events_attribute_nothing :
+  forall c h e now d o,
+  local_event e = true -> In o (snd (step c h e now d)) -> quiet_out o.
+Proof. exact local_events_attribute_nothing. Qed.
+Print Assumptions C01_local_events_attribute_nothing.
+
+(* ------------------------------------------------------------------------------------------ *)
 (* the hypotheses are satisfiable: a completed incoming handshake (Proofs/HandlerB_Examples.v) *)
 Example C01_example_incoming_handshake :
   fixed_cfg ex_cfg /\ ChallOK h_challenged /\
